@@ -93,14 +93,16 @@ def nodes(jpath):
     d = json.load(open(jpath))
     out = []
 
-    def walk(o, scope):
+    def walk(o, scope, fscope=""):
         if isinstance(o, dict):
+            if "declgen" not in o and isinstance(o.get("fmtdict"), dict) and "F_name_scope" in o["fmtdict"]:
+                fscope = o["fmtdict"]["F_name_scope"] or ""          # (set on the namespace / class node, inherited by its functions)
             if "declgen" in o and "fmtdict" in o:
                 fm = o["fmtdict"]
                 w = o.get("wrap", {})
                 out.append({"decl": o.get("declgen"), "generated": o.get("_generated"), "c": fm.get("C_name") if w.get("c") else None,
                             "f": fm.get("F_name_impl") if w.get("fortran") else None, "generic": fm.get("F_name_generic"),
-                            "overloaded": bool(o.get("_overloaded")), "scope": scope, "wrap": w,
+                            "overloaded": bool(o.get("_overloaded")), "scope": scope, "wrap": w, "fscope": fm.get("F_name_scope") if fm.get("F_name_scope") is not None else fscope,
                             "py": fm.get("PY_name_impl") if w.get("python") else None,
                             "ffunc": fm.get("F_name_function") if w.get("fortran") else None})
                 return
@@ -110,10 +112,10 @@ def nodes(jpath):
                 nm = o.get("typemap_name") if o.get("template_arguments") and o.get("typemap_name") else o.get("name")
                 sc = scope + "/" + str(nm)
             for k, v in o.items():
-                walk(v, sc)
+                walk(v, sc, fscope)
         elif isinstance(o, list):
             for v in o:
-                walk(v, scope)
+                walk(v, scope, fscope)
     walk(d, "")
     return out
 
